@@ -64,7 +64,7 @@ def binade_anchors(n):
     return out
 
 
-def check_us(sec, us, to_pv, to_ns, bad, cap=20):
+def check_us(sec, us, to_pv, to_ns, bad, cap=20, to_span=None):
     """one microsecond-precision instant through both converters"""
     total_us = sec * 1_000_000 + us
     ns = total_us * 1000
@@ -87,12 +87,27 @@ def check_us(sec, us, to_pv, to_ns, bad, cap=20):
             bad.append(["pv_to_ns", exp, back, ns])
         else:
             bad.append(None)
+    if to_span is not None:
+        # the PV -> OTel path of the tool: pv_event_to_otel
+        try:
+            sp = to_span({"jobId": "j", "eventId": "e", "timestamp": exp,
+                          "applicationName": "a", "jobName": "n",
+                          "eventType": "t"})
+            st = (sp["start_time_unix_nano"], sp["end_time_unix_nano"])
+        except Exception as e:
+            st = "EXC " + type(e).__name__
+        if st != (ns, ns):
+            if len(bad) < cap:
+                bad.append(["pv_event_to_otel", exp, st, [ns, ns]])
+            else:
+                bad.append(None)
     return got
 
 
 def handle(task):
     from tel2puml.utils import unix_nano_to_pv_string as to_pv
     from tel2puml.pv_to_tel import convert_timestamp_to_unix_nano as to_ns
+    from tel2puml.pv_to_tel import pv_event_to_otel as to_span
     bad = []
     n = 0
     distinct = 0
@@ -101,7 +116,7 @@ def handle(task):
         for sec in task["secs"]:
             prev = None
             for us in M_EDGE:
-                got = check_us(sec, us, to_pv, to_ns, bad)
+                got = check_us(sec, us, to_pv, to_ns, bad, to_span=to_span)
                 n += 1
                 distinct += 1
                 # monotone on the enumerated chain
@@ -127,7 +142,7 @@ def handle(task):
         sec = task["sec"]
         prev = None
         for us in range(task["lo"], task["hi"]):
-            got = check_us(sec, us, to_pv, to_ns, bad)
+            got = check_us(sec, us, to_pv, to_ns, bad, to_span=to_span)
             n += 1
             distinct += 1
             if prev is not None and not (prev < got):
@@ -135,8 +150,8 @@ def handle(task):
             prev = got
     elif kind == "seconds":
         for sec in range(task["lo"], task["hi"]):
-            check_us(sec, 0, to_pv, to_ns, bad)
-            check_us(sec, 999999, to_pv, to_ns, bad)
+            check_us(sec, 0, to_pv, to_ns, bad, to_span=to_span)
+            check_us(sec, 999999, to_pv, to_ns, bad, to_span=to_span)
             n += 2
             distinct += 2
     nbad = len(bad)
@@ -215,6 +230,13 @@ def replay(rec, ctx):
     elif i["fn"] == "pv_to_ns":
         got = to_ns(i["arg"])
         ok = got == rec["expected"]
+    elif i["fn"] == "pv_event_to_otel":
+        from tel2puml.pv_to_tel import pv_event_to_otel
+        sp = pv_event_to_otel({"jobId": "j", "eventId": "e",
+                               "timestamp": i["arg"], "applicationName": "a",
+                               "jobName": "n", "eventType": "t"})
+        got = [sp["start_time_unix_nano"], sp["end_time_unix_nano"]]
+        ok = got == list(rec["expected"])
     else:
         return True, "monotonicity case: re-run the check"
     return (not ok), f"{i['fn']}({i['arg']}) = {got!r}, reference {rec['expected']!r}"
